@@ -666,6 +666,10 @@ class Interp:
             if base.shape is None:
                 raise AnalysisError(f'{fr.mod.where(e)}: shape of an array of unknown extent')
             return tuple(base.shape)
+        if isinstance(base, Arr) and a == 'size' and base.shape is not None and all(isinstance(n_, int) for n_ in base.shape):
+            n_tot = 1
+            for n_ in base.shape: n_tot *= n_
+            return n_tot
         if isinstance(base, Arr) and a in ('real', 'imag', 'size', 'copy', 'conj', 'T'):
             return ('arrattr', base, a)
         if isinstance(base, Builtin):
